@@ -109,7 +109,12 @@ func (k *KVStore) Compaction() (bool, error) {
 				if len(k.tables) == 1 {
 					break
 				}
-				delete(k.tablesByCoefficient, t.Coefficient())
+				// A recycled table was unregistered when it was reset and its
+				// coefficient is zero since then: never drop the entry of
+				// another, live table that owns that coefficient.
+				if k.tablesByCoefficient[t.Coefficient()] == t {
+					delete(k.tablesByCoefficient, t.Coefficient())
+				}
 				k.tables = append(k.tables[:i], k.tables[i+1:]...)
 				i--
 			}
